@@ -1,10 +1,11 @@
-\* the design with the proposed repair, small universe (one reservation name with two incarnations, two pods)
+\* the design with the proposed repair; small universe: one reservation (one incarnation), two pods, clock 0..3,
+\* GC duration 0 ticks (collect at the first tick after the terminal transition), feature gate on
 SPECIFICATION Spec
 CONSTANTS
   Nodes = {"n1", "n2"}
   RNames = {"r1"}
   PNames = {"p1", "p2"}
-  MaxGen = 2
+  MaxGen = 1
   MaxPGen = 1
   Repairs = {"pending-expiry"}
   MaxNow = 3
